@@ -138,7 +138,7 @@ pub fn run_case<B: Sym>(case: &HuffCase, st: &mut HStats) -> Result<(), String> 
         let s = B::from_u16(*sym);
         let mut left = *count as usize;
         while left > 0 {
-            let n = left.min(64);
+            let n = if left > 4096 { left.min(8192) } else { left.min(64) };
             let item: Vec<B> = vec![s; n];
             let src = k % nsrc;
             k += 1;
@@ -376,7 +376,7 @@ fn fib(n: usize) -> u32 {
 
 /// Decode a random case from the tape.
 pub fn decode_case(t: &mut Tape, thorough: bool) -> HuffCase {
-    let profile = t.below(10);
+    let profile = t.below(11);
     let mut wide = t.chance(64);
     let counts: Vec<(u16, u32)> = match profile {
         0 => vec![(t.below(200) as u16, 1 + t.below(20) as u32)],
@@ -405,6 +405,21 @@ pub fn decode_case(t: &mut Tape, thorough: bool) -> HuffCase {
             (0..n).map(|i| (i as u16 * 3, c)).collect()
         }
         5 => Vec::new(),
+        6 => {
+            // one dominant symbol with a count around 2^16 (or 2^20) and a few rare symbols
+            let dom = match t.below(4) {
+                0 => 65535,
+                1 => 65536 + t.below(9000) as u32,
+                2 => 60000 + t.below(5000) as u32,
+                _ => 1 << 20,
+            };
+            let nr = 2 + t.below(5);
+            let mut v = vec![(0u16, dom)];
+            for i in 0..nr {
+                v.push((1 + i as u16, 1 + t.below(8) as u32));
+            }
+            v
+        }
         _ => {
             let n = 1 + t.below(12);
             (0..n).map(|i| { let hi = if t.bool() { 4 } else { 60 }; ((i * 7 % 251) as u16, 1 + t.below(hi) as u32) }).collect()
@@ -776,8 +791,53 @@ pub fn exhaustive_unit(
     }
 }
 
+/// Fibonacci statistics over 30..36 symbols: code lengths beyond 32 bits (fixed cases; the raw
+/// training data is tens of megabytes, so only a handful).
+pub fn deep_codes_unit(property: &'static str, sizes: Vec<usize>) -> Unit {
+    Unit {
+        name: format!("huffman#deep-codes{:?}", sizes),
+        run: Box::new(move |p: &mut Partial, _deadline: Instant| {
+            for n in &sizes {
+                let counts: Vec<(u16, u32)> = (0..*n).map(|i| (i as u16, fib(i))).collect();
+                // items that end in / consist of the deepest symbols, at every start offset
+                let mut items: Vec<(Vec<u16>, u8)> = Vec::new();
+                for pad in 0..9usize {
+                    let mut it = vec![(*n as u16) - 1; pad];
+                    it.push(0);
+                    it.push(1);
+                    it.push((*n as u16) - 1);
+                    items.push((it, (pad % 5) as u8));
+                    items.push((vec![2, 0, 3, 1], 2));
+                }
+                let case = HuffCase { wide: false, counts, nsrc: 2, gens: vec![Gen { items, refuse: vec![vec![250]], copies: 0 }], after_clear: vec![vec![1, 2, 3]] };
+                let mut st = HStats::default();
+                let r = run_any(&case, &mut st);
+                p.evaluations += 1;
+                p.classes.merge(&st.ev);
+                p.classes.hit("deep-codes-case");
+                if nontrivial(&case, &st) {
+                    p.nontrivial.insert(fnv1a(format!("deep-codes-{n}").as_bytes()));
+                }
+                if let Err(msg) = r {
+                    p.violations.push(Violation {
+                        property: property.to_string(),
+                        engine: "huffman".into(),
+                        spec: "Huffman<u8>".into(),
+                        variant: "deep-codes".into(),
+                        signature: signature(property, "huffman", &msg),
+                        message: msg,
+                        size: *n,
+                        case: case_json(&case),
+                    });
+                }
+            }
+        }),
+    }
+}
+
 pub fn units(property: &'static str, thorough: bool, seed: u64) -> Vec<Unit> {
     let mut u = Vec::new();
+    u.push(deep_codes_unit(property, if thorough { vec![30, 33, 34, 35, 36] } else { vec![34] }));
     let counts = if thorough { vec![1, 2, 3, 5, 8] } else { vec![1, 2, 3, 5] };
     let max_syms = if thorough { 5 } else { 4 };
     for n in 1..=max_syms {
